@@ -73,6 +73,10 @@ impl CompressedColumnIndex {
             file.write_all(&e.num_rows.to_le_bytes()).await?;
         }
 
+        // tokio files report a failed write on the next operation: flush first
+        file.flush()
+            .await
+            .map_err(|e| StoreError::FlushFailed(format!("Failed to write entries: {}", e)))?;
         file.sync_all()
             .await
             .map_err(|e| StoreError::FlushFailed(format!("Failed to sync file: {}", e)))?;
